@@ -171,6 +171,10 @@ def real_programs(progs, thorough, seed):
             out.append({"pool": pool, "fill": False, "prog": pr, "pidx": i})
             if pr["op"] == "drop" and pr["n"] <= (2 if thorough else 1) or (not thorough and pr["op"] == "drop" and pr["n"] == 2 and i % 3 == 0):
                 out.append({"pool": pool, "fill": True, "prog": pr, "pidx": i})
+            # insert_with at the moment its slab has exactly one vacant slot left (the insertion that fills the slab, or,
+            # when the closure panics or is refused, the one that does not)
+            if pr["op"] == "iw" and (thorough or pr["n"] <= 1):
+                out.append({"pool": pool, "fill": "one", "prog": pr, "pidx": i})
             # the same program with every scripted object held through type-erased handles (`.erase()`: the handle's
             # static type says nothing about the destructor that runs); raw pools have no handle Drop to vary
             if pr["op"] == "drop" and not pool.startswith("Raw") and (thorough or pr["n"] == 1 or i % 2 == 0):
